@@ -9,7 +9,7 @@
 #include "source/string.c"
 
 #define SGHOSTS() do { GHOST_RESET(); g_on = true; g_k = nondet_size_t(); g_old = nondet_u8(); g_j = nondet_size_t(); g_src = nondet_u8(); \
-                       g_la = nondet_size_t(); g_lb = nondet_size_t(); g_slen = nondet_size_t(); g_sw = nondet_size_t(); g_mm = nondet_size_t(); } while (0)
+                       g_la = nondet_size_t(); g_lb = nondet_size_t(); g_str_owned = nondet_bool(); g_slen = nondet_size_t(); g_sw = nondet_size_t(); g_mm = nondet_size_t(); } while (0)
 
 /* ---------------- constructors ---------------- */
 void h_new_from_array(void) {
@@ -60,7 +60,11 @@ void h_destroy_secure(void) {
     struct aws_string *str;
     SGHOSTS(); g_zero_on = true; g_rz = nondet_size_t(); g_rsize = nondet_size_t();
     aws_string_destroy_secure(str);
+#ifdef VERIF_STR_NO_ALLOCATOR
+    CANARY("zeroed, not released");
+#else
     if (str) CANARY("destroyed"); else CANARY("NULL ignored");
+#endif
 }
 
 /* ---------------- equality / comparison ---------------- */
@@ -88,9 +92,9 @@ void h_string_compare(void) {
 }
 void h_comparator_string(void) {
     const void *a; const void *b;
-    SGHOSTS();
+    SGHOSTS(); g_sa = nondet_ptr(); g_sb = nondet_ptr();
     int r = aws_array_list_comparator_string(a, b);
-    if (!a || !b) CANARY("NULL slot"); else if (r == 0) CANARY("equal"); else CANARY("ordered");
+    if (!a || !b) CANARY("NULL slot"); else if (!g_sa || !g_sb) CANARY("NULL element"); else if (r == 0) CANARY("equal"); else CANARY("ordered");
 }
 
 /* ---------------- buffer / cursor helpers ---------------- */
